@@ -73,6 +73,41 @@ CHECKS["C13"] = {
     "technique": "static analysis: signedness typing, exhaustive dispatch tables, stencil / mean closed forms compared with the reference decoder, control-dependence of post-block steps",
 }
 
+CHECKS["C01"] = {
+    "level": "other",
+    "text": ("Necessary structural conditions only: the chunk driver is an exact cover with one finalize, the default and SI "
+             "compute_full are compositions of compute_chunk/finalize, the streaming STFT path (first-frame branch, finalize) and "
+             "the SI finalize use the documented padding / frame-count closed forms (compared exactly, with witnesses), carried "
+             "state is written on every exit. Equality of values and frame counts over all 2^(N-1) chunkings is NOT decided: it "
+             "depends on arithmetic over the history of buffer fill counts, which needs path-wise symbolic summaries (another "
+             "technique family)."),
+    "design_ref": "DESIGN.md §3 C01",
+    "note": NOTE_COMMON + "The two streaming/one-shot discrepancies named in the property are seen by reading but neither decided nor reported.",
+    "technique": "static analysis: exact-cover rule on the driver, sibling agreement of streaming and one-shot geometry as quasi-affine closed forms, CFG must-write rule",
+}
+CHECKS["C02"] = {
+    "level": "other",
+    "text": ("Decides compute_full's framing geometry (3 configurations) and _compute_frame's spectrum walk against the "
+             "documented definition as exact closed forms valid for all L, S, N, D (odd and even): thresholds, paddings, frame "
+             "count/slices, mirrored-bin capacity / first bin / direction / conjugation, walk structure, real doubling, log floor, "
+             "energy, default frame length and DFT size. Does NOT decide that floating-point sums equal the full-spectrum "
+             "definition for all banks and signals, nor the values of get_truncated_response (C06)."),
+    "design_ref": "DESIGN.md §3 C02",
+    "note": NOTE_COMMON + "len(np.fft.rfft(x, n=D)) = D//2+1 is taken from NumPy's documented contract.",
+    "technique": "static analysis: forward substitution into quasi-affine / rational normal forms compared with the documented geometry (residue tables, witnesses); structural walk rules",
+}
+CHECKS["C14"] = {
+    "level": "other",
+    "text": ("Decides that the functional torch port has the documented framing geometry and mirrored-bin arithmetic (the same "
+             "spec compute.py is checked against under C02) as exact closed forms, the same column count on every return, "
+             "symmetric padding, parameter name-flow without crossed wires through factory -> constructor -> attribute -> forward, "
+             "matching reductions / doubling / log floor / energy, and that the wrappers delegate and re-wrap. Does NOT decide "
+             "numerical agreement to working precision, TorchScript semantics or the dither's distribution."),
+    "design_ref": "DESIGN.md §3 C14",
+    "note": NOTE_COMMON + "spect.size(1) of torch.fft.rfft(x, D, 1) = D//2+1 is taken from torch's documented contract.",
+    "technique": "static analysis: closed-form twin comparison with the documented geometry, 4-hop name-flow, structural reduction/wrapper rules",
+}
+
 _PENDING = "check not built yet in this session (static-analysis clauses planned in DESIGN.md §3)"
 NOT_APPLICABLE = {("C%02d" % i): _PENDING for i in range(1, 21) if ("C%02d" % i) not in CHECKS}
 
